@@ -12,8 +12,8 @@ BOUNDS = {
              "8-triangle annulus: subsets of size <= 2; 3x3 torus (18 triangles): subsets of size <= 1; symbolic transposition of labels",
     "thorough": "annulus: every subset; torus: subsets of size <= 3",
 }
-OUTSIDE = ("symbolic edge lengths (orderings of sums of radicals explode): coordinates are concrete and generic; surfaces of higher "
-           "genus or more border loops; interior feature edges")
+OUTSIDE = ("feature constraints other than the sharp edges of a cube; symbolic edge lengths (orderings of sums of radicals explode): coordinates are concrete and generic; surfaces of higher "
+           "genus or more border loops")
 ASSUMPTIONS = ["input is a connected orientable triangulated manifold surface", "coordinates are fixed generic reals"]
 STUBS = []
 WALL_S = {"quick": 420, "thorough": 1750}
@@ -41,14 +41,16 @@ BASES = {
     "octahedron": (6, [(0, 1, 2), (0, 2, 3), (0, 3, 4), (0, 4, 1), (5, 2, 1), (5, 3, 2), (5, 4, 3), (5, 1, 4)]),
     "annulus": (8, [f for i in range(4) for f in ((i, (i + 1) % 4, 4 + (i + 1) % 4), (i, 4 + (i + 1) % 4, 4 + i))]),
     "torus": (9, _torus(3)),
+    "cube": (8, [(0, 2, 1), (0, 3, 2), (0, 1, 5), (0, 5, 4), (1, 2, 6), (1, 6, 5), (2, 3, 7), (2, 7, 6), (3, 0, 4), (3, 4, 7), (4, 5, 6), (4, 6, 7)]),
 }
 COORDS = {
+    "cube": [(-0.5, -0.5, -0.5), (0.5, -0.5, -0.5), (0.5, 0.5, -0.5), (-0.5, 0.5, -0.5), (-0.5, -0.5, 0.5), (0.5, -0.5, 0.5), (0.5, 0.5, 0.5), (-0.5, 0.5, 0.5)],
     "octahedron": [(0, 0, 1.1), (1, 0.1, 0), (0.05, 1.2, 0), (-1.1, 0, 0.1), (0, -0.9, 0.05), (0.1, 0, -1.3)],
     "annulus": [(2, 0, 0), (0, 2.1, 0), (-2.2, 0, 0.1), (0, -1.9, 0), (1, 0.1, 0.2), (0.1, 1.05, 0.1), (-0.9, 0, 0), (0, -1.1, 0.15)],
 }
 
 
-def cut(name, max_sing=None):
+def cut(name, max_sing=None, interior_features=False):
     def h(sx):
         from mouette.processing.cutting import SingularityCutter
         from mouette.processing.features import FeatureEdgeDetector
@@ -66,15 +68,15 @@ def cut(name, max_sing=None):
         if max_sing is not None:
             sx.assume(len(sing) <= max_sing)
         as_set = sx.flag("singularities_as_set")
-        with_detector = sx.flag("with_border_feature_detector")
+        with_detector = True if interior_features else sx.flag("with_border_feature_detector")
         mesh = meshgen.build(coords, (), faces)
         closed = len(oracle.border_edges(faces)) == 0
         chi = V - len(oracle.surface_edges(faces)) + len(faces)
-        tag = " [%s, %d singular]" % (name, len(sing))
+        tag = " [%s, %d singular%s]" % (name, len(sing), ", sharp edges as features" if interior_features else "")
         try:
             det = None
             if with_detector:
-                det = FeatureEdgeDetector(only_border=True, verbose=False)
+                det = FeatureEdgeDetector(only_border=not interior_features, verbose=False)
                 det.run(mesh)
             cutter = SingularityCutter(mesh, set(sing) if as_set else list(sing), features=det)
             cutter.run()
@@ -141,6 +143,8 @@ def obligations(tier):
     obs = []
     for n in ("tri2", "fan4", "strip4", "tetrahedron", "octahedron"):
         obs.append(Ob("cut-" + n, cut(n), covers=COVERS, split=6, note="every singular subset on " + n))
+    obs.append(Ob("cut-cube-features", cut("cube", 2 if q else 3, interior_features=True), covers=COVERS, split=8,
+                  note="cube with its 12 sharp edges detected as features (feature-aware code path)"))
     obs.append(Ob("cut-annulus", cut("annulus", 2 if q else None), covers=COVERS, split=8, note="annulus"))
     obs.append(Ob("cut-torus", cut("torus", 1 if q else 3), covers=COVERS, split=8, required=q, note="3x3 torus"))
     return obs
